@@ -24,7 +24,7 @@ REQUIRED_OBS = {'eval:C03:symmetric:D': 40, 'eval:C03:invariant:D': 40, 'eval:C0
                 'eval:C03:psd:Lss': 40, 'eval:C03:invariant:Lsv': 40, 'eval:C03:invariant:L1vv': 40, 'eval:C03:psd:L0vv': 40}
 CASE_TIMEOUT = 900
 QUICK = [('fcc', 1), ('bcc', 1), ('hcp', 1), ('square', 1), ('honey', 1), ('omega', 1), ('lieb', 1), ('diamond', 1), ('dtria', 1),
-         ('tria', 1), ('rumpled', 1), ('fcc', 2), ('tric', 1), ('mono', 1), ('p4m', 1), ('p2', 1), ('mono2', 1)]
+         ('tria', 1), ('rumpled', 1), ('fcc', 2), ('tric', 1), ('mono', 1), ('p4m', 1), ('p2', 1), ('mono2', 1), ('p2two', 1)]
 THOROUGH = QUICK + [('sc', 1), ('b2', 1), ('kagome', 1), ('l12', 1), ('tet', 1), ('rect', 1), ('bcc', 2), ('square', 2), ('honey', 2),
                     ('hcp', 2), ('tria', 2)]
 
@@ -70,6 +70,9 @@ def run_vac(case, mon):
     sample = None
     for k in range(case['ninputs']):
         sigma = float(rng.choice([0.7, 3.]))
+        if k == case['ninputs'] - 1 and len(diff.OSindices) > 0:
+            sigma = 0.3   # crystals with origin states: one input with a small rate spread, outside the regime of finding F22
+            mon.count('origin_state_inputs_small_spread')
         base = work_vac.rand_args(rng, diff, 'VSB012', sigma)
         for kk in (0, 4, 8, 12, 16):
             args = [x.copy() for x in base]
